@@ -450,15 +450,15 @@ static void instance_oracles(Instance &I, J &out) {
             if (ok) { if (ap.size() != pics.size()) oracle_fail("refdec_disagree", "libaom and dav1d output different picture counts"); else for (size_t k = 0; k < ap.size(); k++) if (ap[k].data != pics[k].data) { char b[96]; snprintf(b, sizeof b, "picture %zu differs between dav1d and libaom", k); oracle_fail("refdec_disagree", b); break; } } }
     }
     // C26: reported SSE vs submitted picture and decoded picture (8-bit)
-    if (dec_ok && orc.geti("sse", 0) && bd == 8 && I.cfg->stat_report) {   // the statement is about runs with statistics reporting enabled
+    if (dec_ok && orc.geti("sse", 0) && (bd == 8 || bd == 10) && I.cfg->stat_report) {   // the statement is about runs with statistics reporting enabled
         for (size_t k = 0; k < pics.size() && k < pic_packet.size(); k++) {
-            const Packet &p = *pk[pic_packet[k]]; int idx = (int)(p.priv ? p.priv - 0x100000 : p.pts); // submitted index: pts==index in these cases
-            idx = (int)p.pts; if (idx < 0 || idx >= I.content.n) continue;
+            const Packet &p = *pk[pic_packet[k]]; int idx = (int)p.pts; if (idx < 0 || idx >= I.content.n) continue; // submitted index: pts==index in these cases
             std::vector<uint16_t> Y, U, V; gen_frame(I.content, idx, Y, U, V); const refdec::Picture &q = pics[k]; if (q.w != W || q.h != H) continue;
-            uint64_t s[3] = {0, 0, 0}; const uint8_t *dp = q.data.data();
-            for (size_t i = 0; i < (size_t)W * H; i++) { int df = (int)Y[i] - dp[i]; s[0] += (uint64_t)(df * df); } dp += (size_t)W * H;
-            for (size_t i = 0; i < (size_t)(W / 2) * (H / 2); i++) { int df = (int)U[i] - dp[i]; s[1] += (uint64_t)(df * df); } dp += (size_t)(W / 2) * (H / 2);
-            for (size_t i = 0; i < (size_t)(W / 2) * (H / 2); i++) { int df = (int)V[i] - dp[i]; s[2] += (uint64_t)(df * df); }
+            uint64_t s[3] = {0, 0, 0}; const uint8_t *dp = q.data.data(); int bps = bd > 8 ? 2 : 1;
+            auto smp = [&](const uint8_t *b, size_t i) { return bps == 1 ? (int)b[i] : (int)(b[2 * i] | (b[2 * i + 1] << 8)); };
+            for (size_t i = 0; i < (size_t)W * H; i++) { int df = (int)Y[i] - smp(dp, i); s[0] += (uint64_t)((int64_t)df * df); } dp += (size_t)W * H * bps;
+            for (size_t i = 0; i < (size_t)(W / 2) * (H / 2); i++) { int df = (int)U[i] - smp(dp, i); s[1] += (uint64_t)((int64_t)df * df); } dp += (size_t)(W / 2) * (H / 2) * bps;
+            for (size_t i = 0; i < (size_t)(W / 2) * (H / 2); i++) { int df = (int)V[i] - smp(dp, i); s[2] += (uint64_t)((int64_t)df * df); }
             const char *nm[3] = {"luma", "cb", "cr"};
             for (int c = 0; c < 3; c++) if ((uint32_t)s[c] != p.sse[c]) { char b[200]; snprintf(b, sizeof b, "packet %d (pts %lld, pic_type %u): reported %s_sse %u, computed %u", pic_packet[k], (long long)p.pts, p.pic_type, nm[c], p.sse[c], (uint32_t)s[c]); oracle_fail("sse_mismatch", b); }
         }
